@@ -1,6 +1,6 @@
 (* Property C01 — a single-variable query is an exact, ordered, duplicate-free domain filter.
    Only statements, `exact`, and Print Assumptions. *)
-From EQL Require Import Base Values Syntax Spec Generated Elab Elab_Facts EvalPure EvalPure_Facts OneVar_Facts Elab_Frag Lazy Lazy_Facts.
+From EQL Require Import Base Values Syntax Spec Generated Elab Elab_Facts EvalPure EvalPure_Facts OneVar_Facts Elab_Frag Lazy Lazy_Facts Dedup Dedup_Facts.
 
 (* For EVERY heap, EVERY domain, EVERY condition the user can write over the one variable x (any nesting of and_/or_/not_
    over the six comparisons written either way round, in_/contains, attribute chains, indexes, method calls and expressions
@@ -15,6 +15,20 @@ Proof.
   f_equal. apply filter_ext. intros v. exact (elab_sat h dom sc ic E (ev x v)).
 Qed.
 Print Assumptions C01_filter.
+
+(* the same WITH the de-duplication of rows in place (Dedup.v: the evaluator with the seen sets of `_is_duplicate_output_`; tied to
+   symbolic.py by exact row sequences): over one selected variable nothing is ever dropped, the rows are the ordered filter *)
+Theorem C01_filter_dedup : forall h dom x sc ic,
+  NoDup (dom x) -> dom x <> [] -> s1 x sc = true -> sbasic [x] sc = true -> elab sc = Some ic ->
+  run_queryD h dom [TVar x] (Some ic) = map (fun v => [v]) (filter (fun v => sat h dom sc (ev x v)) (dom x)).
+Proof.
+  intros h dom x sc ic N NE S SB E.
+  rewrite (all_selected_no_dedup h dom [x]); [apply C01_filter; assumption | | | exact (elab_basic [x] sc ic E SB) |].
+  - intros y [<-|[]]. exact N.
+  - intros y [<-|[]]. exact NE.
+  - intros y [<-|[]]. cbn. now left.
+Qed.
+Print Assumptions C01_filter_dedup.
 
 (* everything writable in that vocabulary elaborates (the hypothesis `elab sc = Some ic` is never the obstacle) *)
 Theorem C01_elab_total : forall sc, writable sc = true -> exists ic, elab sc = Some ic.
